@@ -182,10 +182,18 @@ fn run(ctx: &Ctx) -> Part {
     // above only contains one particular order)
     {
         let mut jobs3 = Vec::new();
-        for &(fw, fh, win) in &[(2u16, 2u16, (2u16, 2u16, 0u16, 0u16)), (3, 2, (2, 2, 1, 0)), (2, 3, (2, 1, 0, 1))] {
-            for tr in [Transport::RecSerial, Transport::Par8, Transport::Spi { len: 3 }] {
-                for o in [0u8, 3, 5] {
-                    if tr.is_real() && o != 3 {
+        let d3: Vec<(u16, u16, (u16, u16, u16, u16))> = if quick {
+            vec![(2, 2, (2, 2, 0, 0)), (3, 2, (2, 2, 1, 0)), (2, 3, (2, 1, 0, 1))]
+        } else {
+            vec![(2, 2, (2, 2, 0, 0)), (3, 2, (2, 2, 1, 0)), (2, 3, (2, 1, 0, 1)), (3, 2, (3, 2, 0, 0)), (2, 3, (1, 3, 1, 0)), (4, 2, (3, 1, 1, 1)), (1, 3, (1, 2, 0, 1))]
+        };
+        for &(fw, fh, win) in &d3 {
+            for tr in [Transport::RecSerial, Transport::Par8, Transport::Spi { len: 3 }, Transport::Par16, Transport::Spi { len: 5 }] {
+                for o in 0u8..8 {
+                    if quick && (matches!(tr, Transport::Par16 | Transport::Spi { len: 5 }) || ![0, 3, 5].contains(&o)) {
+                        continue;
+                    }
+                    if tr.is_real() && o != 3 && quick {
                         continue;
                     }
                     jobs3.push(Cfg::tiny(fw, fh, false, tr, win, o));
